@@ -32,6 +32,9 @@ CHECKS = {
  "C07": ("translation_validation",
          "Coq theorems: every tensor-producing operation of the modelled runtime only allocates (fresh_ops_frame: pre-existing objects, hence user inputs, and the environment are untouched), setRankIds writes only its receiver, the compiler-side tensor name spells the active ranks + kernel-evaluated post-condition on the final state of every execution (every <Name>_<Ranks> variable holds those rank ids; results bound under declared name/rank order in original coordinates; every input unchanged).",
          EXEC_NOTE, "Rocq frame theorems on the runtime model + kernel-evaluated post-conditions on every execution", "DESIGN.md section 6 C07"),
+ "C15": ("translation_validation",
+         "Correspondence-heavy (partial): deep snapshots of the five parsed objects around HiFiber(...) must be equal; a second compilation from the same objects must succeed with identical text; three compilation orders in fresh processes must give identical text per specification; Model/BindStore.v (buffet defaults + eager expansion, with/without sharing) is tied by T-eq to the real BuffetComponent. Theorems: with a private copy any sequence of component constructions leaves the store unchanged and is repeatable; the pinned tree's sharing is refuted with a witness (finding F2, fixed).",
+         "Trusted: Coq kernel+VM; the snapshot function (observable state = recursive vars() of parsed objects); sampled compilation orders.", "snapshot/recompile/order correspondence + Rocq model of the bindings store tied by T-eq", "DESIGN.md section 6 C15"),
  "C16": ("translation_validation",
          "Coq theorems: the emitted slip counter discipline yields pairwise distinct stamps for any sequence (slip_unique), one per activity; canvas/metrics API calls of the modelled runtime are observation-only + kernel-evaluated execution of graphics-mode programs with a recording canvas: tensors equal the oracle, one activity per executed update, point arities, distinct stamps for well-ordered loop orders.",
          EXEC_NOTE, "Rocq theorems (list induction; frame) + kernel-evaluated execution with a recording canvas", "DESIGN.md section 6 C16"),
